@@ -869,6 +869,14 @@ def _fold_format(node):
               value=b.left.value % ast.literal_eval(b.right)), b)
         except (ValueError, SyntaxError, TypeError):
           pass
+      # integer arithmetic on the substituted constants: 0 + 2 -> 2
+      if isinstance(b.op, (ast.Add, ast.Sub, ast.Mult)) and all(
+          isinstance(x, ast.Constant) and type(x.value) is int
+          for x in (b.left, b.right)):
+        l, r = b.left.value, b.right.value
+        v = l + r if isinstance(b.op, ast.Add) else (
+            l - r if isinstance(b.op, ast.Sub) else l * r)
+        return ast.copy_location(ast.Constant(value=v), b)
       return b
 
     def visit_Call(self, c):
